@@ -269,6 +269,26 @@ func RunCheck(id, tier string) int {
 	}
 	sort.Slice(rows, func(i, j int) bool { return rows[i].Unit < rows[j].Unit })
 
+	// regression cases of repaired defects: a fixed entry suppresses nothing, its witnesses are
+	// replayed (fresh process each) and any violation is reported like any other
+	regress := 0
+	for _, f := range ledger.Fixed(id) {
+		for _, wc := range f.Witnesses {
+			regress++
+			rp := ReplayFile{Property: id, Case: wc, Original: wc, Sig: "regression of " + f.ID, Instr: chk.Instr}
+			data, _ := json.MarshalIndent(rp, "", " ")
+			cmd := exec.Command(exe, "replay", "-")
+			cmd.Stdin = bytes.NewReader(data)
+			outb, _ := cmd.CombinedOutput()
+			if cmd.ProcessState != nil && cmd.ProcessState.ExitCode() == 1 {
+				v := &Violation{Property: id, Obs: Obs{Clause: "regression", Class: f.ID, Observed: strings.TrimSpace(string(outb)),
+					Expected: "repaired defect stays repaired: " + f.What}, Case: wc, Min: wc, MinObs: strings.TrimSpace(string(outb)), MinExp: "repaired defect stays repaired: " + f.What,
+					Sig: "regression | " + f.ID + " | " + wc.String(), Count: 1}
+				viol[v.Sig] = v
+			}
+		}
+	}
+
 	// classify violations
 	sigs := []string{}
 	for s := range viol {
@@ -297,7 +317,10 @@ func RunCheck(id, tier string) int {
 			break
 		}
 		rp := ReplayFile{Property: id, Clause: v.Clause, Class: v.Class, Case: v.Min, Original: v.Case,
-			Observed: v.MinObs, Expected: v.Expected, Sig: v.Sig, Count: v.Count, Instr: chk.Instr}
+			Observed: v.MinObs, Expected: v.MinExp, Sig: v.Sig, Count: v.Count, Instr: chk.Instr}
+		if v.Clause == "regression" {
+			rp.Clause, rp.Class = "", ""
+		}
 		h := sha1.Sum([]byte(v.Sig))
 		path := filepath.Join(replayDir, fmt.Sprintf("%x.json", h[:6]))
 		rp.How = fmt.Sprintf("cd /verif && ./run replay %s", path)
@@ -321,7 +344,7 @@ func RunCheck(id, tier string) int {
 		reported = append(reported, v)
 		fmt.Printf("VIOLATION property=%s replay=%s\n", id, path)
 		fmt.Printf("  clause=%s class=%s\n  minimal case: %s\n  observed: %s\n  expected: %s\n  attributed cases: %d (first: %s)\n",
-			v.Clause, v.Class, v.Min, trunc(v.MinObs, 300), trunc(v.Expected, 300), v.Count, v.Case)
+			v.Clause, v.Class, v.Min, trunc(v.MinObs, 300), trunc(v.MinExp, 300), v.Count, v.Case)
 	}
 	if len(fresh) > maxReport {
 		fmt.Printf("  (+%d further distinct violation signatures not written out)\n", len(fresh)-maxReport)
@@ -358,6 +381,7 @@ func RunCheck(id, tier string) int {
 		"workers":                       nw,
 		"counters":                      tot.Counters,
 		"known_findings_seen":           kids,
+		"fixed_regression_cases":        regress,
 		"violation_signatures_new":      len(fresh),
 		"violation_signatures_known":    len(sigs) - len(fresh),
 		"unconfirmed":                   unconfirmed,
